@@ -237,7 +237,7 @@ func (c15) ID() string     { return "C15" }
 func (c15) Level() string  { return "exploration" }
 func (c15) QuickRuns() int { return 120000 }
 func (c15) Rule() string {
-	return "traceroute.RunTraceroute with 0-4 runs and 0-6 end-to-end probes of every protocol/method, with and without public-IP collection (providers succeeding, failing permanently, all failing) and reverse DNS; a seeded subset of the endpoints (by role and ordinal) fails at its first send or an early read with its own sentinel error; per-flow delays and the choice tape vary the completion order; non-trivial = at least two concurrent endpoints existed; distinct = distinct (protocol, counts, failing subset, topology) shapes"
+	return "seven eighths controlled: traceroute.RunTraceroute with 0-4 runs and 0-6 end-to-end probes of every protocol/method, with and without public-IP collection (providers succeeding, failing permanently, all failing) and reverse DNS; a seeded subset of the endpoints (by role and ordinal) fails at its first send or an early read with its own sentinel error; per-flow delays and the choice tape vary the completion order; one eighth free-running (no scheduler, GOMAXPROCS 8): 0-4 runs and 2-40 end-to-end probes started at the same instant, most or all failing at handle construction with distinct sentinels, the joined error must expose every one of them (an unsynchronised aggregation loses some); non-trivial = at least two concurrent endpoints existed; distinct = distinct (protocol, counts, failing subset, topology) shapes"
 }
 func (c15) Assumptions() []string {
 	return []string{"providers never answer with a retryable error in this check (the back-off jitter source is not seedable); retry behaviour is covered by C18", "runs are attributed to endpoints by source port, ICMP runs by content"}
@@ -266,7 +266,30 @@ func genProviders(rng *rand.Rand, sc *sim.Scenario) string {
 	}
 }
 
+// genC15Free draws a free-running request (no scheduler, real parallelism) in which many runs and
+// end-to-end probes fail at the same moment: the aggregation of their errors must lose none.
+func genC15Free(rng *rand.Rand) *sim.Scenario {
+	c := sim.Call{Entry: "run_traceroute", Protocol: pick(rng, "udp", "icmp", "tcp"), Method: "syn", Target: target4, Port: 33434, MinTTL: 1, MaxTTL: 1,
+		TimeoutMs: 0, DelayMs: 0, Queries: between(rng, 0, 4), E2E: between(rng, 2, 40)}
+	sc := &sim.Scenario{Property: "C15", Mode: "free", Calls: []sim.Call{c}, Note: "family=free-failures"}
+	sc.Knobs.RandSeed = int64(rng.Uint32())
+	total := c.Queries + c.E2E
+	if chance(rng, 0.5) {
+		sc.Knobs.FreeFailAll = true
+	} else {
+		for k := 1; k <= total; k++ {
+			if chance(rng, 0.7) {
+				sc.Knobs.FreeFailNew = append(sc.Knobs.FreeFailNew, k)
+			}
+		}
+	}
+	return sc
+}
+
 func (c15) Gen(rng *rand.Rand, tier string, i int) *sim.Scenario {
+	if i%8 == 7 {
+		return genC15Free(rng)
+	}
 	o := requestOpts{queriesMin: 0, queriesMax: 4, e2eMax: 6, publicIP: 0.4, reverseDNS: 0.3, bigE2E: 0.01}
 	sc := genRequestScenario("C15", rng, o)
 	c := &sc.Calls[0]
@@ -305,6 +328,28 @@ func (c15) Check(out *sim.Outcome, ri *RunInfo) []Violation {
 	cs := out.W.Calls[0]
 	c := cs.C
 	proto := c.Protocol + "/" + c.Method
+	if out.Sc.Mode == "free" {
+		ri.Shape = fmt.Sprint(out.Sc.Calls, out.Sc.Knobs.FreeFailNew, out.Sc.Knobs.FreeFailAll)
+		failed := out.W.FreeFailed
+		if failed >= 2 {
+			ri.NonTrivial = true
+			ri.probe("free.concurrent-failures")
+		}
+		if failed == 0 {
+			return vs
+		}
+		if cs.Results != nil {
+			vs = append(vs, Violation{Rule: "C15.partial", Detail: fmt.Sprintf("%d endpoints failed at construction but the request returned a result", failed), Facts: facts("protocol", proto, "mode", "free")})
+		}
+		distinct := map[int]bool{}
+		for _, s := range sentinelsIn(cs.Err) {
+			distinct[s.K] = true
+		}
+		if len(distinct) != failed {
+			vs = append(vs, Violation{Rule: "C15.cause-lost", Detail: fmt.Sprintf("%d runs/probes failed at the same moment (real parallelism, %d queries + %d e2e probes) but the returned error exposes only %d of the failures", failed, c.Queries, c.E2E, len(distinct)), Facts: facts("protocol", proto, "mode", "free")})
+		}
+		return vs
+	}
 	ri.Shape = shapeOf(out.Sc) + fmt.Sprint(out.Sc.Faults, c.Queries, c.E2E, c.PublicIP)
 	if len(out.W.Eps)+len(out.W.FailedNew) >= 2 {
 		ri.NonTrivial = true
